@@ -27,6 +27,9 @@ CLAIMED = {
  "C07": ("proptest-generated problems x line-search settings; invariant over the observed iterate history + bitwise prefix determinism against max_iter=k runs",
          "Exploration: 25k (quick) / 600k (thorough) problems (feasible, infeasible, all cone mixtures, both scaling strategies, strategy switches and rollbacks) are solved with the per-iteration observer: tau,kappa>0, s in K, z in K* at every loop head, steps in (0,1]; then for k=0..min(K,10) a fresh run with max_iter=k must stop bit-identically at the long run's k-th iterate and return exactly its un-scaling (~10 extra solves per case).",
          SOLVE_NOTE + " Iterates are read through the observer hook in internal coordinates; presolve is off so dimensions match.", "DESIGN.md §4 C07"),
+ "C08": ("model-based stateful generation: histories of update operations in every argument form interpreted against the solver and a user-level model; differential against a freshly built solver",
+         "Exploration: 60k (quick) / 1.5M (thorough) histories of 1-3 epochs; each epoch re-plants consistent data on the fixed patterns and delivers it through update_P/q/A/b/update_data as Vec, CscMatrix, (idx,val) tuples or zip iterators in partial chunks, mixed with empty and invalid updates, then solves. After every step the internal data and the KKT copies are checked against the model exactly; refusals must be the documented error and leave data bit-identical; every solve is compared with a fresh solver on the model data and passes the C01/C03 oracles. A second suite checks that all updates are refused while a presolve reduction is active.",
+         SOLVE_NOTE + " KKT synchronisation is read through the verif_kkt_values hook.", "DESIGN.md §4 C08"),
  "C09": ("proptest-generated infinite-bound placements and set_infinity histories; bitwise differential against hand-reduced / capped problems",
          "Exploration: planted problems with B, B(1+1e-3), 1e10 B, f64::MAX, +inf or B(1-1e-6) on random rows of nonnegative, singleton SOC/PSD and other cones, presolve on/off, module bound in {1e5,1e10,1e20,1e25} set through histories and changed again after construction; checks the dropped set, z=0/s=B, lengths, internal size, and bitwise equality with the problem reduced by hand and with capped entries replaced by B.",
          SOLVE_NOTE + " Single-threaded because the check owns the module-level infinity value (restored on exit).", "DESIGN.md §4 C09"),
